@@ -15,7 +15,7 @@ RULE = (
     "VDI images written by an independent writer from a content model: block sizes 512 B..4 MiB, block maps "
     "with every mix of allocated/unallocated(-1)/zero(-2), all permutations of physical positions for <=4 blocks "
     "and random/reversed/run-wise placements beyond, disk sizes that are not a block multiple, arbitrary "
-    "BlocksOffset/DataOffset; requests are exhaustive sector pairs on tiny disks and boundary-set pairs + random "
+    "BlocksOffset/DataOffset; children over a parent image in which zero-marked blocks cover parent data; requests are exhaustive sector pairs on tiny disks and boundary-set pairs + random "
     "byte-granular ones otherwise. A case is non-trivial when it has >=2 blocks and a block map that is not the "
     "identity, or a mix of block states; distinct = distinct (block size, nblocks, states, map) signatures."
 )
@@ -23,7 +23,7 @@ ASSUMPTIONS = [
     "the harness's VDI writer and content model are a faithful reading of the VDI v1.1 layout",
     "held means: held on the executions listed, not verified for all inputs",
 ]
-MINIMA = {"quick": {"reads_compared": 2000, "multi_block_requests": 200}, "thorough": {"reads_compared": 20000}}
+MINIMA = {"quick": {"reads_compared": 2000, "multi_block_requests": 200, "zero_blocks_over_parent_data": 10}, "thorough": {"reads_compared": 20000}}
 MECH = "vdi.read"
 
 
@@ -47,6 +47,9 @@ def plan(tier: str, seed: int) -> list[dict]:
                 "weight": 1 + (bs * n >> 20),
             }
         )
+    for i in range(24 if tier == "quick" else 400):
+        bs = rng.choice([512, 1024, 4096, 65536])
+        cases.append({"k": "parent", "bs": bs, "n": rng.randrange(2, 24), "i": i, "placement": "shuffle"})
     return cases
 
 
@@ -57,6 +60,15 @@ def run(case: dict, ctx) -> dict:
         sf, layer, meta = w.build(rng, block_size=bs, nblocks=n, states=["A"] * n, placement="seq")
         # re-map according to the permutation
         sf, layer, meta = _with_perm(rng, bs, n, case["perm"])
+    elif case["k"] == "parent":
+        # zero-marked (-2) blocks must read as zeros even when a parent holds data there; unallocated (-1)
+        # blocks fall through to the parent
+        states = [rng.choice("AUZZ") for _ in range(n)]
+        states[rng.randrange(n)] = "Z"
+        sf, layer, meta = w.build(rng, block_size=bs, nblocks=n, states=states, placement="shuffle", tag=rng.getrandbits(48))
+        pbs = rng.choice([bs, bs, 512, 2048])
+        pn = -(-meta["size"] // pbs)
+        psf, player, pmeta = w.build(rng, block_size=pbs, nblocks=pn, states=["A"] * pn, placement="shuffle", tag=rng.getrandbits(48))
     else:
         tail = rng.choice([0, 0, rng.randrange(0, bs // 512) * 512, rng.randrange(0, bs)]) if n > 0 else 0
         sf, layer, meta = w.build(
@@ -65,13 +77,23 @@ def run(case: dict, ctx) -> dict:
             data_gap=rng.choice([0, 0, 512, 4096, 512 * rng.randrange(1, 64)]),
             holes=rng.choice([0, 0, 1, 3]), tag=rng.getrandbits(48),
         )
-    model = Model(meta["size"], [layer])
     small = sf.end <= (8 << 20)
     fh = as_handle(sf.to_bytes() if small else sf)
     res = {"cnt": {}, "viol": [], "sets": {}}
     from dissect.hypervisor.disk.vdi import VDI
 
-    o = call(VDI, fh)
+    if case["k"] == "parent":
+        model = Model(meta["size"], [layer, player])
+        po = call(VDI, as_handle(psf.to_bytes()))
+        if not po.ok:
+            res["viol"].append({"what": f"open failed on conformant parent: {po.brief()}", "mech": MECH, "detail": {"tb": po.tb}})
+            return res
+        o = call(VDI, fh, parent=po.value)
+        res["cnt"]["parent_cases"] = 1
+        res["cnt"]["zero_blocks_over_parent_data"] = meta["map"].count(-2)
+    else:
+        model = Model(meta["size"], [layer])
+        o = call(VDI, fh)
     if not o.ok:
         res["viol"].append({"what": f"open failed on conformant image: {o.brief()}", "mech": MECH, "detail": {"tb": o.tb}})
         return res
